@@ -21,17 +21,17 @@ open Gzx Gzx.Row128
     `counters[2:2+counterPosition-1]`, and `result[:resultLength-2]` (a printable last character in code set C always
     contributed two digits — invariant `J`); the `for !done` loop ends because every decoded code consumes ≥ 6 pixels. -/
 theorem code128_decodeRow_total (D : VarDom) (hD : D.PmvOk) (P : List (List Nat)) (hP : Table128 P)
-    (row : List Bool) (gs1 : Bool) : Typed (decodeRow D P row gs1) := by
-  unfold decodeRow
+    (row : List Bool) (gs1 : Bool) : Typed (Row128.decodeRow D P row gs1) := by
+  unfold Row128.decodeRow
   rcases findStartPattern_res D hD P hP row with hnf | ⟨s0, s1, sc, hok, hle⟩
   · rw [hnf]; exact Or.inr (Or.inl rfl)
   · rw [hok]
     simp only []
-    split
-    · exact Or.inr (Or.inr (Or.inr rfl))
-    · rename_i codeSet _
-      have hJ0 : J ⟨codeSet, [], true, false, false, false, 0, 0, sc, 0, 0⟩ := by
-        intro _ _; simp
+    cases hcs : codeSetOf sc with
+    | none => exact Or.inr (Or.inr (Or.inr rfl))
+    | some codeSet =>
+      simp only []
+      have hJ0 : J (st0 codeSet sc) := by intro _ _; simp [st0]
       rcases mainLoop_res D hD P hP row gs1 (row.length + 1) _ ⟨[sc], s0, s1⟩ hJ0 hle (by simp only []; omega)
         with h | h | ⟨s, p, h, hJ⟩
       · rw [h]; exact Or.inr (Or.inl rfl)
@@ -40,23 +40,11 @@ theorem code128_decodeRow_total (D : VarDom) (hD : D.PmvOk) (P : List (List Nat)
         simp only []
         split
         · exact Or.inr (Or.inl rfl)
-        · split
-          · exact Or.inr (Or.inr (Or.inl rfl))
-          · split
-            · exact Or.inr (Or.inl rfl)
-            · rename_i hne
-              by_cases hlp : s.lastPrintable = true
-              · simp only [hlp, if_true]
-                by_cases hC : s.codeSet = 99
-                · have := hJ hlp hC
-                  simp only [hC, if_true]
-                  rw [if_neg (by simp only [List.length_reverse] at hne ⊢; omega)]
-                  exact Or.inl ⟨_, rfl⟩
-                · simp only [hC, if_false]
-                  rw [if_neg (by simp only [List.length_reverse] at hne ⊢; omega)]
-                  exact Or.inl ⟨_, rfl⟩
-              · simp only [hlp]
-                exact Or.inl ⟨_, rfl⟩
+        · rcases finish_typed s hJ with ⟨t, ht⟩ | ht | ht | ht
+          · rw [ht]; exact Or.inl ⟨_, rfl⟩
+          · rw [ht]; exact Or.inr (Or.inl rfl)
+          · rw [ht]; exact Or.inr (Or.inr (Or.inl rfl))
+          · rw [ht]; exact Or.inr (Or.inr (Or.inr rfl))
 
 /-- the same, spelled as the model's never producing the two pseudo-results a Go panic / a non-terminating loop map to -/
 theorem code128_decodeRow_no_panic (D : VarDom) (hD : D.PmvOk) (P : List (List Nat)) (hP : Table128 P)
